@@ -65,6 +65,11 @@ def run_call(call, tmp, idx):
             if "glycan_list" in call:
                 caller_list = list(call["glycan_list"])
                 kw["glycan_list"] = caller_list
+            if "file_lines" in call:
+                fpath = os.path.join(tmp, f"hin_{os.getpid()}_{idx}.txt")
+                with open(fpath, "w") as fh:
+                    fh.write("".join(x + "\n" for x in call["file_lines"]))
+                kw["glycan_file"] = fpath
             if "gen" in call:
                 kw["glycan_generator"] = iter(list(call["gen"]))
             kw["verbose"] = None if call.get("verbose", "none") == "none" else logging.INFO
